@@ -174,6 +174,43 @@ func runTTL(rep *Report, replay string) {
 		// "a few cleanup intervals": the first observation waits for three intervals and a little more
 		time.Sleep(3*iv + 25*time.Millisecond)
 		observe("early")
+		// a second wave of TTL writes on the by now well-used collection, through each writer: the deadline stored
+		// must be the clock reading of the call plus the TTL (bounds taken around the call), whatever
+		// the transaction object has been used for before
+		for k := 0; k < 6; k++ {
+			ttl := time.Duration(k+1) * time.Hour
+			var got int64
+			var idx uint32
+			t0 := time.Now()
+			switch k % 3 {
+			case 0:
+				idx, _ = c.Insert(func(r column.Row) error { got = r.SetTTL(ttl).UnixNano(); r.SetInt64("tag", 0); return nil })
+			case 1:
+				c.Query(func(txn *column.Txn) error {
+					var err error
+					idx, err = txn.Insert(func(r column.Row) error { txn.TTL().Set(ttl); r.SetInt64("tag", 0); return nil })
+					return err
+				})
+			default:
+				// on an existing row, through the Row API
+				idx, _ = c.Insert(func(r column.Row) error { r.SetInt64("tag", 0); return nil })
+				t0 = time.Now()
+				c.QueryAt(idx, func(r column.Row) error { r.SetTTL(ttl); return nil })
+			}
+			t1 := time.Now()
+			var stored int64
+			c.QueryAt(idx, func(r column.Row) error { stored, _ = r.Int64("expire"); return nil })
+			// 2 ms of slack for a wall clock being slewed between the readings
+			lo, hi := t0.Add(ttl).UnixNano()-int64(2*time.Millisecond), t1.Add(ttl).UnixNano()+int64(2*time.Millisecond)
+			if stored < lo || stored > hi {
+				addV(fmt.Sprintf("[interval %v] second wave, writer %d: a TTL of %v set between clock readings %d and %d stored the deadline %d, %v outside [%d, %d]", iv, k%3, ttl, t0.UnixNano(), t1.UnixNano(), stored, time.Duration(stored-lo), lo, hi))
+			}
+			if k%3 == 0 && (got < lo || got > hi) {
+				addV(fmt.Sprintf("[interval %v] second wave: SetTTL(%v) returned the expiration time %d, outside [%d, %d]", iv, ttl, got, lo, hi))
+			}
+			rep.count("second-wave-ttl-write")
+			rep.Cases++
+		}
 		time.Sleep(time.Until(start.Add(short + margin + 5*iv + 40*time.Millisecond)))
 		observe("after-short-deadline")
 		atomic.StoreInt32(&stop, 1)
